@@ -457,27 +457,44 @@ func (x *fx) loopHeader(li *loopInfo, phiEntry map[*ssa.Phi]*Val) {
 	baseFrame := x.frameVsEntry(pre)
 	// locals of this activation that the loop body never stores to keep their
 	// contents across the loop (unmodelled callees cannot reach them)
-	storedInLoop := map[*ssa.Alloc]bool{}
+	storedInLoop := map[*ssa.Alloc]bool{}            // stored to as a whole (or in a way not tracked per field)
+	storedFields := map[*ssa.Alloc]map[string]bool{} // struct locals: field memories the loop stores to
 	for bi := range li.body {
 		for _, in := range x.fn.Blocks[bi].Instrs {
 			if st, ok := in.(*ssa.Store); ok {
-				if a := rootAlloc(st.Addr); a != nil {
+				a := rootAlloc(st.Addr)
+				if a == nil {
+					continue
+				}
+				if fm := x.rootFieldMem(st.Addr, a); fm != "" {
+					if storedFields[a] == nil {
+						storedFields[a] = map[string]bool{}
+					}
+					storedFields[a][fm] = true
+				} else {
 					storedInLoop[a] = true
 				}
 			}
 		}
 	}
-	var keptLocals []string
+	type keptLocal struct {
+		ref    string
+		fields map[string]bool
+	}
+	var keptLocals []keptLocal
 	for _, r := range x.localRefs {
 		if a := x.localAlloc[r]; a != nil && !storedInLoop[a] {
-			keptLocals = append(keptLocals, r)
+			keptLocals = append(keptLocals, keptLocal{r, storedFields[a]})
 		}
 	}
 	h.frame = func(n, nv, ov string) {
 		baseFrame(n, nv, ov)
 		if !strings.HasPrefix(n, "$") {
-			for _, r := range keptLocals {
-				x.assume(fmt.Sprintf("(= (select %s %s) (select %s %s))", nv, r, ov, r))
+			for _, k := range keptLocals {
+				if k.fields[n] {
+					continue
+				}
+				x.assume(fmt.Sprintf("(= (select %s %s) (select %s %s))", nv, k.ref, ov, k.ref))
 			}
 		}
 	}
@@ -1511,6 +1528,31 @@ func uniqStr(ss []string) []string {
 }
 
 // rootAlloc: the local variable an address is derived from (through field and index selection).
+// rootFieldMem: for a store address inside the struct local a (a.f, a.f.g, a.f[i]...),
+// the name of the memory holding a's top-level field f; "" when the store is not
+// through a field of a.
+func (x *fx) rootFieldMem(addr ssa.Value, a *ssa.Alloc) string {
+	v := addr
+	for depth := 0; depth < 6; depth++ {
+		switch u := v.(type) {
+		case *ssa.FieldAddr:
+			if u.X == ssa.Value(a) {
+				t := a.Type().Underlying().(*types.Pointer).Elem()
+				if st, ok := t.Underlying().(*types.Struct); ok {
+					return x.fieldMemName(t, st, u.Field)
+				}
+				return ""
+			}
+			v = u.X
+		case *ssa.IndexAddr:
+			v = u.X
+		default:
+			return ""
+		}
+	}
+	return ""
+}
+
 func rootAlloc(v ssa.Value) *ssa.Alloc {
 	for depth := 0; depth < 6; depth++ {
 		switch u := v.(type) {
